@@ -318,9 +318,6 @@ package sipsp
 // For objects whose Reset wipes the whole struct the postcondition is "every cell is zero", i.e. equal to
 // a newly created object; no precondition on the previous state (used, abandoned or failed).
 
-//@ func (*PField).Reset(p) ()
-//@   inline
-
 //@ func (*PFromBody).Reset(fv) ()
 //@   requires fv != nil
 //@   inline
